@@ -53,6 +53,7 @@ type qMsg struct {
 	TLSOverride   bool              `json:"tls_required_no,omitempty"`
 	Quarantine    bool              `json:"quarantine,omitempty"` // raised by the pipeline at the body stage (C06)
 	AuthUser      string            `json:"auth_user,omitempty"`
+	Helo          string            `json:"client_helo_name,omitempty"` // what the client said in EHLO ("" = client.example); never validated by the endpoint
 	AuthPassword  string            `json:"auth_password,omitempty"`
 	Plans         []qPlan           `json:"plans,omitempty"`
 	Abort         bool              `json:"abort,omitempty"` // the client aborts after Body instead of committing
@@ -493,6 +494,9 @@ func qRun(sc qScenario, observe func(dir string, h *qHistory)) *qHistory {
 				ID: m.ID, OriginalFrom: m.OriginalFrom,
 				SMTPOpts: smtp.MailOptions{UTF8: m.UTF8, RequireTLS: m.RequireTLS},
 				Conn:     &module.ConnState{Proto: "ESMTPSA", Hostname: "client.example", AuthUser: m.AuthUser, AuthPassword: m.AuthPassword},
+			}
+			if m.Helo != "" {
+				meta.Conn.Hostname = m.Helo
 			}
 			if m.OriginalRcpts != nil {
 				meta.OriginalRcpts = map[string]string{}
